@@ -18,6 +18,10 @@ import (
 //   outs: 0 len  KRet | 1 KOk | 2 KVal | 3 KClosed | 4 KEmpty | 5 len live  KAw
 //   F attempt_consts <id> | cap(c)
 //   F attempt_obs <id> count nrecv maxlen nafter precancelled cancelled closedSeen firstImm sorted exited | 1
+//       (one complete use of a real channel; decided by the extracted monitor obs_ok, C20_observation_monitor_sound)
+// Scenarios: C20K1 (quiescent cases, no timing dependence), C20T (real tickers; per unit of n one millisecond-scale case and
+// `race` nanosecond-scale cases with a spinning receiver and a context whose cancellation is instantaneous).
+// MONITOR lines are emitted only for observations that cannot be explained by timing.
 
 // attemptProducers reports the number of live goroutines started by LinearAttempt (a frame or creator line in attempt.go)
 // and whether every one of them is parked in a select.
@@ -303,7 +307,32 @@ func attemptK1Case(h *hctx, id int) {
 type attemptParams struct {
 	count, pace, slowK, plan, j int
 	rate, off, deadline         time.Duration
-	cancelBeforeFirst           bool
+	cancelBeforeFirst, race     bool
+}
+
+// attemptCtx is a minimal context whose cancellation is a few dozen nanoseconds (Err and the close of Done change together
+// under one mutex, as in the standard cancelCtx): it makes "receives begun after cancel() returned" a sharp observation.
+type attemptCtx struct {
+	mu   sync.Mutex
+	done chan struct{}
+	err  error
+}
+
+func (c *attemptCtx) Deadline() (time.Time, bool)   { return time.Time{}, false }
+func (c *attemptCtx) Done() <-chan struct{}         { return c.done }
+func (c *attemptCtx) Value(interface{}) interface{} { return nil }
+func (c *attemptCtx) Err() error {
+	c.mu.Lock()
+	defer c.mu.Unlock()
+	return c.err
+}
+func (c *attemptCtx) cancel() {
+	c.mu.Lock()
+	if c.err == nil {
+		c.err = context.Canceled
+		close(c.done)
+	}
+	c.mu.Unlock()
 }
 
 type attemptObs struct {
@@ -339,15 +368,14 @@ func attemptTimedCase(h *hctx, id int, race bool) {
 		p.plan = 4
 	}
 	if race {
+		// a tick is pending at every select (periods down to 1ns), the receiver spins on non-blocking receives, and the
+		// cancellation is issued by the receiver itself after its j-th value (or by a timer)
+		p.race = true
 		p.count = 8 + rng.Intn(60)
-		p.rate = time.Duration(1+rng.Intn(5)) * time.Microsecond
+		p.rate = []time.Duration{1, 1, 10, 100, 1000}[rng.Intn(5)] * time.Nanosecond
 		p.pace = 0
-		if rng.Intn(4) == 0 {
-			p.pace = 1
-			p.slowK = 1
-		}
 		p.plan = 2
-		if rng.Intn(5) == 0 {
+		if rng.Intn(6) == 0 {
 			p.plan = 1
 		}
 	}
@@ -434,6 +462,11 @@ func attemptTimedCase(h *hctx, id int, race bool) {
 // attemptRunTimed uses one channel of LinearAttempt from the call to the close, as laid out by p, and reports what it saw.
 func attemptRunTimed(p attemptParams) (o attemptObs) {
 	ctx, cancel := context.WithCancel(context.Background())
+	if p.race {
+		cancel()
+		fc := &attemptCtx{done: make(chan struct{})}
+		ctx, cancel = fc, fc.cancel
+	}
 	var cancelInvoked, cancelDone atomic.Bool
 	var cancelOnce sync.Once
 	doCancel := func() {
@@ -540,6 +573,29 @@ func attemptRunTimed(p attemptParams) (o attemptObs) {
 			time.Sleep(time.Duration(p.slowK) * p.rate)
 		}
 		sample()
+		if p.race {
+			// spin: every attempt is a receive of its own, begun after reading the flag
+			start := time.Now()
+			for spins := 1; ; spins++ {
+				f := cancelDone.Load()
+				select {
+				case v, ok := <-c:
+					if ok {
+						got(v, f)
+					} else {
+						o.closedSeen = true
+					}
+				default:
+					if spins&1023 == 0 && time.Since(start) > p.deadline {
+						timedOut = true
+					} else {
+						continue
+					}
+				}
+				break
+			}
+			continue
+		}
 		f := cancelDone.Load()
 		t := time.NewTimer(p.deadline)
 		select {
